@@ -54,7 +54,7 @@ ASSUMPTIONS = [
 ]
 TOLERANCES = {
     "lnprob-vs-logprob": 1e-12, "density-closed-form": 1e-10,
-    "normalisation": 1e-10, "scale-unscale-ulp": 4.0,
+    "normalisation": 1e-10, "scale-unscale-ulp": 32.0,
     "sample-quantile": 1e-12, "ecdf-distance": 0.04,
     "derived-ratio": 32.0, "bgauss-proportional": 1e-12,
 }
@@ -131,8 +131,10 @@ def cases(tier, seed):
     out.append({"id": "bgauss:sample-size-none", "kind": "bgnone",
                 "tier": tier})
     for n in (1, 3, 7):
-        out.append({"id": "bgauss:rejection:size=%d" % n, "kind": "bgrej",
-                    "n": n, "tier": tier})
+        for (m, s) in sorted({(m, s) for (m, s, k) in _bg_params(tier)}):
+            out.append({"id": "bgauss:rejection:size=%d:mu=%s,sd=%s" %
+                        (n, _f(m), _f(s)), "kind": "bgrej", "n": n,
+                        "mu": m, "sd": s, "tier": tier})
     for k in ("uniform", "gaussian", "bgauss"):
         out.append({"id": "ctor:%s" % k, "kind": "ctor", "which": k,
                     "tier": tier})
@@ -414,8 +416,9 @@ def _check_scale(ck, pr, pts, what):
             "%s: scale_factor=%r is not a positive finite number" %
             (what, sf))
     for v in pts:
-        if not math.isfinite(v) or (v != 0 and abs(v) < 1e-300):
-            continue
+        if not math.isfinite(v) or abs(v) > 1e150 or \
+                (v != 0 and abs(v) < 1e-150):
+            continue        # v / scale_factor would over/underflow
         w = pr.unscale(pr.scale(v))
         w2 = pr.scale(pr.unscale(v))
         ck.trans += 4
@@ -944,11 +947,13 @@ def _run_stream(ck, info, pr, sy, size, stream, what):
     return ("ok", got)
 
 
-def _bg_block(ck, info, tier, size, streams_for, what_check=None):
+def _bg_block(ck, info, tier, size, streams_for, only=None):
     acc = []
     nseq = 0
     fails = {}
     for (mu, sd, k) in _bg_params(tier):
+        if only is not None and (mu, sd) != only:
+            continue
         pr, lo, hi = _mk_bg(mu, sd, k)
         what = "BoundedGaussian(%r, %r, %r, %r)" % (mu, sd, lo, hi)
         sy = _BGSyms(mu, sd, lo, hi)
@@ -978,6 +983,8 @@ def _run_bgnone(case, ck, info):
     fp, nseq = _bg_block(ck, info, tier, None, streams_for)
     if fp is None:
         info.bump("fallback-seeds-only")
+    for v in ck.viol:
+        v["check"] = "sample-size-none:" + v["check"]
     nbad = 0
     first = None
     for (mu, sd, k) in _bg_params(tier):
@@ -1016,16 +1023,20 @@ def _run_bgrej(case, ck, info):
         def streams_for(sy):
             o = [s for s in sy.out if s in ("b", "a")]
             return _streams7(o, 3)
-    fp, nseq = _bg_block(ck, info, tier, n, streams_for)
+    only = (case["mu"], case["sd"])
+    fp, nseq = _bg_block(ck, info, tier, n, streams_for, only)
     if fp is None:
         info.bump("fallback-seeds-only")
     # real generator: many small calls (a rejection sampler's support
-    # guarantee must hold for every call, not only on average)
+    # guarantee must hold for every call, not only on average); the
+    # narrowest bound pattern (acceptance 0.6 %) is left to the n=20000 run
     nbad = 0
     ncall = 0
     first = None
-    reps = 200 if tier == "quick" else 400
+    reps = 100 if tier == "quick" else 200
     for (mu, sd, k) in _bg_params(tier):
+        if (mu, sd) != only or k == 5:
+            continue
         pr, lo, hi = _mk_bg(mu, sd, k)
         for s in SEEDS[tier]:
             np.random.seed(s)
@@ -1406,3 +1417,828 @@ def _run_npleft(case, ck, info):
                     abs(X.guess), "%s(2) * %s has guess %r" % (tn, nm, g))
             acc.append(repr(float(np.real(g))))
     return digest(acc)
+
+
+# ---------------------------------------------------------------------------
+# expression trees
+# ---------------------------------------------------------------------------
+def _b_add(a, b):
+    return a + b
+
+
+def _b_sub(a, b):
+    return a - b
+
+
+def _b_mul(a, b):
+    return a * b
+
+
+def _b_div(a, b):
+    return a / b
+
+
+def _b_pow(a, b):
+    return a ** b
+
+
+def _b_max(a, b):
+    return np.maximum(a, b)
+
+
+def _u_neg(a):
+    return -a
+
+
+_BINF = {"add": _b_add, "sub": _b_sub, "mul": _b_mul, "div": _b_div,
+         "pow": _b_pow, "max": _b_max}
+_UNAF = {"neg": _u_neg, "sqrt": np.sqrt, "exp": np.exp}
+_CACHE = {}
+
+
+def _isnum(t):
+    return t.__class__ is tuple and t[0] == "n"
+
+
+def _has_prior(t):
+    if t.__class__ is str:
+        return True
+    if t[0] == "n":
+        return False
+    return any(_has_prior(c) for c in t[1:])
+
+
+def _first_prior(t):
+    if t.__class__ is str:
+        return t
+    if t[0] == "n":
+        return None
+    for c in t[1:]:
+        r = _first_prior(c)
+        if r:
+            return r
+    return None
+
+
+def _nprior(t):
+    if t.__class__ is str:
+        return 1
+    if t[0] == "n":
+        return 0
+    return sum(_nprior(c) for c in t[1:])
+
+
+def _depth1():
+    """every expression of depth <= 1 over the scalar leaves, fixed order"""
+    if "d1" not in _CACHE:
+        out = list(LEAVES)
+        for op in BIN:
+            for l in LEAVES:
+                for r in LEAVES:
+                    out.append((op, l, r))
+        for op in UNA:
+            for l in LEAVES:
+                out.append((op, l))
+        _CACHE["d1"] = out
+    return _CACHE["d1"]
+
+
+def _steps(e):
+    """one more comb step: e combined with every leaf on either side, and
+    every unary operator"""
+    seen = set()
+    for op in BIN:
+        for l in LEAVES:
+            for t in ((op, e, l), (op, l, e)):
+                if t not in seen:
+                    seen.add(t)
+                    yield t
+    for op in UNA:
+        yield (op, e)
+
+
+def _spine1():
+    if "s1" not in _CACHE:
+        out = []
+        for p in ("P", "Q"):
+            for t in _steps(p):
+                if t not in out:
+                    out.append(t)
+        _CACHE["s1"] = out
+    return _CACHE["s1"]
+
+
+def show(t):
+    if t.__class__ is str:
+        return t
+    if t[0] == "n":
+        return repr(t[1])
+    if len(t) == 3:
+        if t[0] == "max":
+            return "np.maximum(%s, %s)" % (show(t[1]), show(t[2]))
+        return "(%s %s %s)" % (show(t[1]), SYM[t[0]], show(t[2]))
+    if t[0] == "neg":
+        return "(-%s)" % show(t[1])
+    return "np.%s(%s)" % (t[0], show(t[1]))
+
+
+def ev(t, env):
+    """the same operations on plain numbers (reference model)"""
+    if t.__class__ is str:
+        return env[t]
+    if t[0] == "n":
+        return t[1]
+    if len(t) == 3:
+        return _BINF[t[0]](ev(t[1], env), ev(t[2], env))
+    return _UNAF[t[0]](ev(t[1], env))
+
+
+class Unclean(Exception):
+    pass
+
+
+def _real(x):
+    if isinstance(x, (bool, np.bool_)):
+        raise Unclean
+    if isinstance(x, (int, float, np.floating, np.integer)):
+        x = float(x)
+        if x != x or x in (INF, -INF):
+            raise Unclean
+        return x
+    raise Unclean
+
+
+def evb(t, env):
+    """reference value with a forward error bound (corner evaluation of the
+    operand intervals + 4 roundings per node).  Raises Unclean when an
+    intermediate is not a finite real or an operand interval touches a
+    pole."""
+    if t.__class__ is str:
+        return _real(env[t]), 0.0
+    if t[0] == "n":
+        return _real(t[1]), 0.0
+    try:
+        if len(t) == 3:
+            f = _BINF[t[0]]
+            a, ea = evb(t[1], env)
+            b, eb = evb(t[2], env)
+            v = _real(f(a, b))
+            if t[0] == "div" and abs(b) <= 2 * eb:
+                raise Unclean
+            if t[0] == "pow" and (abs(a) <= 2 * ea or (a < 0 and eb > 0)):
+                raise Unclean
+            e = 0.0
+            if ea or eb:
+                for sa in ((-1, 1) if ea else (0,)):
+                    for sb in ((-1, 1) if eb else (0,)):
+                        c = _real(f(a + sa * 2 * ea, b + sb * 2 * eb))
+                        e = max(e, abs(c - v))
+            if t[0] == "pow":
+                # libm pow is accurate to an ulp, but the result's
+                # sensitivity to the rounding of its own operands is
+                # already in the corners; keep a little extra head-room
+                e += 4 * U * abs(v)
+            return v, e + 4 * U * abs(v)
+        f = _UNAF[t[0]]
+        a, ea = evb(t[1], env)
+        v = _real(f(a))
+        e = 0.0
+        if ea:
+            for sa in (-1, 1):
+                c = _real(f(a + sa * 2 * ea))
+                e = max(e, abs(c - v))
+        return v, e + 4 * U * abs(v)
+    except Unclean:
+        raise
+    except Exception:
+        raise Unclean
+
+
+def _classify(op, side, c):
+    """what the property demands when a prior meets the number c.
+    -> must (accept) / may (either) / raise (must raise)"""
+    npleft = isinstance(c, np.generic) and side == "L"
+    if isinstance(c, complex) and not isinstance(c, numbers.Real):
+        return "raise" if op == "mul" else "may"
+    if isinstance(c, (bool, np.bool_)) or not isinstance(
+            c, (int, float, np.floating, np.integer)):
+        return "may"
+    cf = float(c)
+    if cf != cf or cf in (INF, -INF):
+        return "may"
+    if op == "mul":
+        if cf == 0:
+            return "may" if npleft else "raise"
+        return "must"
+    if op == "div":
+        return "may" if cf == 0 else "must"
+    return "must"
+
+
+class Trees:
+    """builds expressions on the real Prior objects and compares guess,
+    samples and map placement with the reference model."""
+
+    VP, VQ = 0.6875, 1.8125
+
+    def __init__(self, ck, info, level):
+        from holopy.core.prior import Uniform, Gaussian, Prior
+        from holopy.core.mapping import Mapper, read_map
+        self.ck, self.info, self.level = ck, info, level
+        self.Prior, self.Mapper, self.read_map = Prior, Mapper, read_map
+        self.P = Uniform(0.25, 1.5)
+        self.Q = Gaussian(2.0, 0.5)
+        self.pri = {"P": self.P, "Q": self.Q}
+        self.genv = {"P": self.P.guess, "Q": self.Q.guess}
+        self.fp = []
+        self.seam = self._probe()
+        if level == "full":
+            self.plans = [(None, (qu, qn)) for qu in QGRID for qn in QGRID]
+            for n in (1, 7):
+                for r in range(len(QGRID)):
+                    self.plans.append((n, r))
+        else:
+            self.plans = [(None, (0.25, 0.75)), (None, (1 - 1e-12, 1e-12)),
+                          (None, (0.0, 0.5)), (1, 2), (7, 0), (7, 3)]
+        self._mk = {}
+
+    def _probe(self):
+        with scripted(QuantilePlan([0.5], [0.5])) as s:
+            if s is None:
+                self.info["seam"] = "absent"
+                return False
+            try:
+                self.P.sample()
+                self.Q.sample(2)
+            except Exception:
+                self.info["seam"] = "unusable"
+                return False
+            if len(s.calls) < 2:
+                self.info["seam"] = "silent"
+                return False
+        self.info["seam"] = "scripted"
+        return True
+
+    def _plan(self, spec):
+        if spec not in self._mk:
+            size, a = spec
+            if size is None:
+                p = QuantilePlan([a[0]], [a[1]])
+            else:
+                qs = QGRID[a:] + QGRID[:a]
+                p = QuantilePlan(qs, qs[::-1][2:] + qs[::-1][:2])
+            self._mk[spec] = p
+        return self._mk[spec]
+
+    # -- construction -------------------------------------------------------
+    def build(self, t):
+        """-> (kind, obj); kind in num / pri / ref (refused) / inv"""
+        ck = self.ck
+        if t.__class__ is str:
+            return "pri", self.pri[t]
+        if t[0] == "n":
+            return "num", t[1]
+        if len(t) == 2:
+            k, x = self.build(t[1])
+            if k in ("ref", "inv"):
+                return k, x
+            try:
+                r = _UNAF[t[0]](x)
+            except Exception as e:
+                if k == "num":
+                    return "inv", type(e).__name__
+                ck.viol.append({"check": "closure-unary", "msg":
+                                "%s raised %s: %s" % (show(t),
+                                                      type(e).__name__, e)})
+                return "ref", type(e).__name__
+            if k == "num":
+                return "num", r
+            ck.trans += 1
+            if not isinstance(r, self.Prior):
+                ck.viol.append({"check": "closure-type", "msg": "%s is a %s,"
+                                " not a prior" % (show(t),
+                                                  type(r).__name__)})
+                return "ref", "non-prior"
+            return "pri", r
+        kl, l = self.build(t[1])
+        if kl in ("ref", "inv"):
+            return kl, l
+        kr, r = self.build(t[2])
+        if kr in ("ref", "inv"):
+            return kr, r
+        f = _BINF[t[0]]
+        if kl == "num" and kr == "num":
+            try:
+                return "num", f(l, r)
+            except Exception as e:
+                return "inv", type(e).__name__
+        op = t[0]
+        if kl == "num":
+            status, c, X = _classify(op, "L", l), l, r
+        elif kr == "num":
+            status, c, X = _classify(op, "R", r), r, l
+        else:
+            status, c, X = "must", None, None
+        try:
+            res = f(l, r)
+            ck.trans += 1
+        except Exception as e:
+            if status == "must":
+                ck.viol.append({"check": "closure:%s" % op, "msg":
+                                "%s raised %s: %s" % (show(t),
+                                                      type(e).__name__, e)})
+            self.info.bump("refused:" + type(e).__name__)
+            return "ref", type(e).__name__
+        if status == "raise":
+            ck.viol.append({"check": "mul-zero-raises" if not isinstance(
+                c, complex) else "unsupported-type-raises", "msg":
+                "%s did not raise (operand %r)" % (show(t), c)})
+            return "ref", "should-have-raised"
+        if not isinstance(res, self.Prior):
+            if status == "must":
+                ck.viol.append({"check": "closure-type", "msg": "%s is a %s,"
+                                " not a prior" % (show(t),
+                                                  type(res).__name__)})
+            return "ref", "non-prior"
+        if c is not None and status == "must" and not (
+                isinstance(c, np.generic) and kl == "num"):
+            if op == "add" and c == 0 and res is not X:
+                ck.viol.append({"check": "add-zero-identity", "msg":
+                                "%s is not the prior operand itself" %
+                                show(t)})
+            if op == "mul" and c == 1 and res is not X:
+                ck.viol.append({"check": "mul-one-identity", "msg":
+                                "%s is not the prior operand itself" %
+                                show(t)})
+        return "pri", res
+
+    # -- comparison ---------------------------------------------------------
+    def compare(self, check, hol, exc, t, env, what):
+        """hol: observed value (exc None) or exc: exception raised"""
+        info = self.info
+        try:
+            ref = ev(t, env)
+        except Exception:
+            info.bump("ref-undefined")
+            return
+        if exc is None:
+            h = hol
+            try:
+                if (h == ref) or (h != h and ref != ref):
+                    if not isinstance(h, (numbers.Number, np.generic)):
+                        raise TypeError
+                    info.bump("exact")
+                    return
+            except Exception:
+                self.ck.viol.append({"check": check + "-type", "msg":
+                                     "%s of %s is %r" % (what, show(t), h)})
+                return
+        try:
+            v, e = evb(t, env)
+        except Unclean:
+            info.bump("ref-unclean")
+            return
+        if exc is not None:
+            self.ck.viol.append({"check": check + "-raises", "msg":
+                                 "%s of %s raised %s: %s, the same "
+                                 "operations on the base values give %r" %
+                                 (what, show(t), type(exc).__name__,
+                                  str(exc)[:100], v)})
+            return
+        try:
+            hf = _real(h)
+        except Unclean:
+            self.ck.viol.append({"check": check, "msg":
+                                 "%s of %s is %r, the same operations on the"
+                                 " base values give %r" % (what, show(t), h,
+                                                           v)})
+            return
+        ratio = abs(hf - v) / (e + 5e-324)
+        self.ck.metric("derived-ratio", ratio)
+        info.bump("within-bound")
+        if not ratio <= TOLERANCES["derived-ratio"]:
+            self.ck.viol.append({"check": check, "msg":
+                                 "%s of %s is %r, the same operations on the"
+                                 " base values (%r) give %r (error bound "
+                                 "%.2e)" % (what, show(t), hf, env, v, e)})
+
+    # -- one expression -----------------------------------------------------
+    def check(self, t):
+        info = self.info
+        info.bump("expressions")
+        k, obj = self.build(t)
+        if k != "pri":
+            info.bump("not-constructed:" + k)
+            return
+        info.bump("constructed")
+        ck = self.ck
+        # guess
+        try:
+            g, exc = obj.guess, None
+        except Exception as e:
+            g, exc = None, e
+        ck.trans += 1
+        self.compare("derived-guess", g, exc, t, self.genv, "guess")
+        if exc is None:
+            try:
+                self.fp.append(float(np.real(g)))
+            except Exception:
+                pass
+        # map placement (holopy.core.mapping)
+        try:
+            m = self.Mapper()
+            mp = m.convert_to_map(obj, "x")
+            vals = [self.VP if p is self.P else self.VQ
+                    for p in m.parameters]
+            got, exc = self.read_map(mp, vals), None
+        except Exception as e:
+            got, exc = None, e
+        ck.trans += 2
+        self.compare("map-value", got, exc, t,
+                     {"P": self.VP, "Q": self.VQ}, "read_map(convert_to_map)")
+        # samples
+        if self.seam:
+            for spec in self.plans:
+                self.sample_scripted(t, obj, spec)
+        else:
+            self.sample_seeded(t, obj)
+
+    def sample_scripted(self, t, obj, spec):
+        size = spec[0]
+        with scripted(self._plan(spec)) as s:
+            bp = self.P.sample(size)
+            bq = self.Q.sample(size)
+            del s.calls[:]
+            try:
+                h, exc = obj.sample(size), None
+            except (SeamUnusable, SeamRunaway):
+                self.info.bump("seam-unusable")
+                return
+            except Exception as e:
+                h, exc = None, e
+            ncalls = len(s.calls)
+        self.ck.trans += 1
+        if exc is None and ncalls == 0:
+            self.info.bump("seam-silent")
+            return
+        what = "sample(%r) [scripted answers P=%r Q=%r]" % (
+            size, np.asarray(bp).ravel()[:2].tolist(),
+            np.asarray(bq).ravel()[:2].tolist())
+        if size is None:
+            self.compare("derived-sample", h, exc, t, {"P": bp, "Q": bq},
+                         what)
+            return
+        if exc is None and not (isinstance(h, np.ndarray)
+                                and h.shape == (size,)):
+            self.ck.viol.append({"check": "derived-sample-shape", "msg":
+                                 "%s of %s has shape %r" %
+                                 (what, show(t), np.shape(h))})
+            return
+        for i in range(size):
+            self.compare("derived-sample", None if exc else h[i], exc, t,
+                         {"P": bp[i], "Q": bq[i]}, what + " element %d" % i)
+            if exc is not None:
+                break
+
+    def sample_seeded(self, t, obj):
+        """fallback without the seam: enumerated seeds of the real
+        generator; values are compared only when the expression draws from
+        one base prior once (no assumption on the order of draws)."""
+        self.info.bump("fallback-seeds-only")
+        single = _nprior(t) == 1
+        name = _first_prior(t)
+        for seed in (0, 1):
+            for size in SIZES:
+                np.random.seed(seed)
+                b = self.pri[name].sample(size)
+                np.random.seed(seed)
+                try:
+                    h, exc = obj.sample(size), None
+                except Exception as e:
+                    h, exc = None, e
+                self.ck.trans += 1
+                what = "sample(%r) [seed %d]" % (size, seed)
+                if size is not None and exc is None and not (
+                        isinstance(h, np.ndarray) and h.shape == (size,)):
+                    self.ck.viol.append({
+                        "check": "derived-sample-shape", "msg":
+                        "%s of %s has shape %r" % (what, show(t),
+                                                   np.shape(h))})
+                    continue
+                if not single:
+                    continue
+                if size is None:
+                    self.compare("derived-sample", h, exc, t, {name: b},
+                                 what)
+                else:
+                    for i in range(size):
+                        self.compare("derived-sample",
+                                     None if exc else h[i], exc, t,
+                                     {name: b[i]}, what)
+                        if exc is not None:
+                            break
+
+
+def _run_tree1(case, ck, info):
+    T = Trees(ck, info, "full")
+    for t in _depth1():
+        if _has_prior(t):
+            T.check(t)
+    return digest(np.array(T.fp))
+
+
+def _run_tree2(case, ck, info):
+    T = Trees(ck, info, "light")
+    D1 = _depth1()
+    L = D1[case["i"]]
+    nl = len(LEAVES)
+    for op in BIN:
+        for j, R in enumerate(D1):
+            if case["i"] < nl and j < nl:
+                continue            # depth 1, covered by tree:d1
+            t = (op, L, R)
+            if _has_prior(t):
+                T.check(t)
+    return digest(np.array(T.fp))
+
+
+def _run_tree2u(case, ck, info):
+    T = Trees(ck, info, "light")
+    for X in _depth1()[len(LEAVES):]:
+        if _has_prior(X):
+            for op in UNA:
+                T.check((op, X))
+    return digest(np.array(T.fp))
+
+
+def _run_tree3(case, ck, info):
+    T = Trees(ck, info, "light")
+    T.plans = [(None, (0.25, 0.75)), (7, 0)]
+    e1 = _spine1()[case["i"]]
+    for e2 in _steps(e1):
+        for e3 in _steps(e2):
+            T.check(e3)
+    return digest(np.array(T.fp))
+
+
+# ---------------------------------------------------------------------------
+# ndarray operand in direct contact with a prior
+# ---------------------------------------------------------------------------
+ARR = [1, 2]
+ARR0 = [0.0, 1.0, 2.5]
+
+
+def _nd_bases(T):
+    """(tree, object) for every prior-valued expression of depth <= 1"""
+    out = []
+    for t in _depth1():
+        if not _has_prior(t):
+            continue
+        nv = len(T.ck.viol)
+        k, obj = T.build(t)
+        del T.ck.viol[nv:]          # asserted in tree:d1, not here
+        if k == "pri":
+            out.append((t, obj))
+    return out
+
+
+def _run_ndelem(case, ck, info):
+    """prior (op) ndarray -> ndarray of priors, element i == prior (op) a_i"""
+    T = Trees(ck, info, "light")
+    A = np.array(ARR)
+    n = 0
+    for t, obj in _nd_bases(T):
+        for op in ("add", "sub", "mul", "div"):
+            txt = "%s %s np.array(%r)" % (show(t), SYM[op], ARR)
+            try:
+                r = _BINF[op](obj, A)
+                ck.trans += 1
+            except Exception as e:
+                _viol(ck, "closure:ndarray", "%s raised %s: %s" %
+                      (txt, type(e).__name__, e))
+                continue
+            if not (isinstance(r, np.ndarray) and r.shape == A.shape and
+                    all(isinstance(x, T.Prior) for x in r)):
+                _viol(ck, "closure-type", "%s is not an array of priors: %r"
+                      % (txt, r))
+                continue
+            for i, a in enumerate(ARR):
+                et = (op, t, ("n", a))
+                n += 1
+                try:
+                    g, exc = r[i].guess, None
+                except Exception as e:
+                    g, exc = None, e
+                T.compare("derived-guess", g, exc, et, T.genv,
+                          "guess of element %d" % i)
+                if T.seam:
+                    for spec in T.plans:
+                        T.sample_scripted(et, r[i], spec)
+            if op == "mul":
+                ck.true("mul-one-identity", r[0] is obj, "(%s)[0] is not the"
+                        " prior itself although a_0 == 1" % txt)
+    P = T.P
+    r = P + np.array(ARR0)
+    ck.true("add-zero-identity", r[0] is P, "(P + np.array(%r))[0] is not P"
+            % ARR0)
+    try:
+        r = P * np.array(ARR0)
+        _viol(ck, "mul-zero-raises", "P * np.array(%r) did not raise "
+              "although a_0 == 0" % ARR0)
+    except Exception:
+        pass
+    ck.trans += 2
+    info["elements"] = n
+    return digest(np.array(T.fp), n)
+
+
+def _run_ndarr(case, ck, info):
+    """ndarray (op) prior, np.maximum(prior, ndarray), prior ** ndarray ->
+    one array-valued derived prior"""
+    T = Trees(ck, info, "light")
+    A = np.array(ARR)
+    acc = []
+    nexp = 0
+    bad_shape = []
+    bad_val = []
+    for t, obj in _nd_bases(T):
+        forms = [(op, "L") for op in BIN] + [("max", "R"), ("pow", "R")]
+        for op, side in forms:
+            if side == "L":
+                txt = "np.array(%r) %s %s" % (ARR, SYM.get(op, op), show(t))
+                fn = lambda: _BINF[op](A, obj)
+                mk = lambda a: (op, ("n", a), t)
+            else:
+                txt = ("np.maximum(%s, np.array(%r))" if op == "max" else
+                       "%s ** np.array(%r)") % (show(t), ARR)
+                fn = lambda: _BINF[op](obj, A)
+                mk = lambda a: (op, t, ("n", a))
+            try:
+                r = fn()
+                ck.trans += 1
+            except Exception as e:
+                _viol(ck, "closure:ndarray", "%s raised %s: %s" %
+                      (txt, type(e).__name__, e))
+                continue
+            if not isinstance(r, T.Prior):
+                _viol(ck, "closure-type", "%s is a %s, not a prior" %
+                      (txt, type(r).__name__))
+                continue
+            nexp += 1
+            if case["part"] == "guess":
+                try:
+                    g, exc = r.guess, None
+                    if np.shape(g) != (len(ARR),):
+                        _viol(ck, "derived-guess-shape", "guess of %s has "
+                              "shape %r" % (txt, np.shape(g)))
+                        continue
+                except Exception as e:
+                    g, exc = None, e
+                for i, a in enumerate(ARR):
+                    T.compare("derived-guess", None if exc else g[i], exc,
+                              mk(a), T.genv, "guess[%d] of %s" % (i, txt))
+                for spec in T.plans[:2]:
+                    if not T.seam:
+                        break
+                    with scripted(T._plan(spec)):
+                        bp, bq = T.P.sample(), T.Q.sample()
+                        try:
+                            h, exc = r.sample(), None
+                        except Exception as e:
+                            h, exc = None, e
+                    ck.trans += 1
+                    if exc is None and np.shape(h) != (len(ARR),):
+                        _viol(ck, "derived-sample-shape", "%s.sample() has "
+                              "shape %r" % (txt, np.shape(h)))
+                        continue
+                    for i, a in enumerate(ARR):
+                        T.compare("derived-sample", None if exc else h[i],
+                                  exc, mk(a), {"P": bp, "Q": bq},
+                                  "sample()[%d] of %s" % (i, txt))
+                continue
+            # sample(size=n): n rows, row j == operation(array, base sample j)
+            if not T.seam:
+                info.bump("fallback-seeds-only")
+                for size in (1, 2, 7):
+                    np.random.seed(0)
+                    try:
+                        h = np.asarray(r.sample(size))
+                    except Exception as e:
+                        bad_shape.append("%s.sample(%d) raised %s" %
+                                         (txt, size, type(e).__name__))
+                        continue
+                    if h.shape not in ((size, len(ARR)), (len(ARR), size)):
+                        bad_shape.append("%s.sample(%d) has shape %r" %
+                                         (txt, size, h.shape))
+                continue
+            for size, rot in ((1, 2), (2, 1), (7, 0)):
+                with scripted(T._plan((size, rot))):
+                    bp, bq = T.P.sample(size), T.Q.sample(size)
+                    try:
+                        h, exc = np.asarray(r.sample(size)), None
+                    except Exception as e:
+                        h, exc = None, e
+                ck.trans += 1
+                if exc is not None:
+                    bad_shape.append("%s.sample(%d) raised %s: %s" %
+                                     (txt, size, type(exc).__name__, exc))
+                    continue
+                if h.shape == (len(ARR), size) and size != len(ARR):
+                    h = h.T
+                if h.shape != (size, len(ARR)):
+                    bad_shape.append("%s.sample(%d) has shape %r, expected "
+                                     "%d samples of a length-%d value" %
+                                     (txt, size, h.shape, size, len(ARR)))
+                    continue
+                nv = len(ck.viol)
+                for j in range(size):
+                    for i, a in enumerate(ARR):
+                        T.compare("derived-sample", h[j, i], None, mk(a),
+                                  {"P": bp[j], "Q": bq[j]},
+                                  "sample(%d)[%d,%d] of %s" % (size, j, i,
+                                                              txt))
+                if len(ck.viol) > nv:
+                    bad_val.append(ck.viol[nv]["msg"])
+                    del ck.viol[nv:]
+                acc.append(np.round(h.astype(float), 9))
+    if bad_shape:
+        _viol(ck, "derived-sample-shape:ndarray-operand", "%d array-valued "
+              "derived priors return the wrong number of values for "
+              "sample(size=n); first: %s" % (len(bad_shape), bad_shape[0]),
+              more=bad_shape[1:4])
+    if bad_val:
+        _viol(ck, "derived-sample:ndarray-operand", "%d wrong values; first:"
+              " %s" % (len(bad_val), bad_val[0]))
+    info["array-valued-priors"] = nexp
+    return digest(np.array(T.fp), nexp, *acc)
+
+
+# ---------------------------------------------------------------------------
+RUN = {"uniform": _run_uniform, "gaussian": _run_gaussian,
+       "bgauss": _run_bgauss, "bgnone": _run_bgnone, "bgrej": _run_bgrej,
+       "ctor": _run_ctor, "complex": _run_complex, "ident": _run_ident,
+       "unsup": _run_unsup, "npleft": _run_npleft, "ndelem": _run_ndelem,
+       "ndarr": _run_ndarr, "tree1": _run_tree1, "tree2": _run_tree2,
+       "tree2u": _run_tree2u, "tree3": _run_tree3}
+
+
+def run_case(case):
+    import warnings
+    ck = Checker()
+    info = Info()
+    with np.errstate(all="ignore"), warnings.catch_warnings():
+        warnings.simplefilter("ignore")
+        fp = RUN[case["kind"]](case, ck, info)
+    # keep the report readable: at most 12 violations per check name
+    seen = {}
+    kept = []
+    for v in ck.viol:
+        seen[v["check"]] = seen.get(v["check"], 0) + 1
+        if seen[v["check"]] <= 12:
+            kept.append(v)
+    for v in kept:
+        if seen[v["check"]] > 12:
+            v.setdefault("count_in_case", seen[v["check"]])
+    ck.viol = kept
+    res = ck.result(fp=fp)
+    res["info"] = dict(info)
+    return res
+
+
+def coverage_extra(cases, results):
+    tier = cases[0]["tier"]
+    tot = {}
+    seam = set()
+    for r in results:
+        for k, v in (r.get("info") or {}).items():
+            if k == "seam":
+                seam.add(v)
+            elif isinstance(v, int):
+                tot[k] = tot.get(k, 0) + v
+    d1 = len(_depth1())
+    nfull2 = len(BIN) * d1 * d1 + len(UNA) * d1 + len(LEAVES)
+    out = {
+        "uniform_bound_alphabet": [repr(x) for x in UBOUNDS],
+        "gaussian_mu": GMU[tier], "gaussian_sd": GSD[tier],
+        "bounded_patterns_in_sd": [[repr(a), repr(b)] for a, b in BPAT],
+        "bounded_gaussians": len(_bg_params(tier)),
+        "quantile_answers": QGRID, "sample_sizes": [repr(s) for s in SIZES],
+        "seeds": SEEDS[tier], "ecdf_n": NECDF,
+        "leaf_alphabet": ["P=Uniform(0.25,1.5)", "Q=Gaussian(2,0.5)", "0",
+                          "1", "2", "-1.5", "ndarray([1,2]) (contact only)"],
+        "operator_alphabet": BIN + UNA,
+        "expressions_depth_le_2_total": nfull2,
+        "expression_depth_complete": 2,
+        "counters": dict(sorted(tot.items())),
+        "seam_status": sorted(seam) or ["not probed"],
+        "seam_fallback_used": bool(tot.get("fallback-seeds-only")),
+    }
+    if tier == "thorough":
+        s1 = len(_spine1())
+        out["depth3"] = {
+            "shape": "comb (every binary node has a leaf operand)",
+            "expressions": sum(1 for c in cases if c["kind"] == "tree3"),
+            "blocks": s1,
+            "not_enumerated": "bushy depth-3 trees (6*(%d)^2 expressions): "
+                              "capped, depth 3 is NOT exhaustive" % nfull2}
+    return out
